@@ -65,10 +65,13 @@ func (neighborhood *Neighborhood) Incentive(targetValue string) {
 	neighborhood.scoresByTargetValueMutex.Lock()
 	defer neighborhood.scoresByTargetValueMutex.Unlock()
 	target, err := NewTargetFromValue(targetValue)
-	if err == nil {
-		targetValue = target.Value()
+	if err != nil {
+		return
 	}
-	neighborhood.scoresByTargetValue[targetValue] += 1
+	isTargetOnSameNetwork := neighborhood.hostTarget.IsSameNetworkId(target)
+	if isTargetOnSameNetwork {
+		neighborhood.scoresByTargetValue[target.Value()] += 1
+	}
 }
 
 func (neighborhood *Neighborhood) Senders() []application.Sender {
